@@ -428,6 +428,49 @@ def cl_circ_map(shape, a, phi, b, ref, seed):
     return fails, {'circularize:map': e / 1e-12}
 
 
+def cl_sequence(shape, calls, seed):
+    """state independence: a sequence of calls on same-size images (different origins / dr / dt / kinds) made in one
+    process; every call must return exactly what the same call returns when it is the first one made in a fresh state
+    (the modules are re-imported for the reference), and the relations int2D = 2 pi r avg2D, int3D = 4 pi r^2 avg3D
+    must hold between the results of the sequence.  calls = [[function, origin, dr, dt], ...] with function one of the
+    four kinds, the four wrappers, 'reproject' and 'reprojectJ'."""
+    import importlib
+    rng = np.random.default_rng(seed)
+    ims = [rng.normal(size=shape) + 0.5 for _ in calls]
+
+    def one(V, P, fn, IM, origin, dr, dt):
+        org = None if origin is None else tuple(origin)
+        if fn in ('int2D', 'int3D', 'avg2D', 'avg3D'):
+            return V.radial_intensity(fn, IM.copy(), origin=org, dr=dr, dt=dt)
+        if fn in ('reproject', 'reprojectJ'):
+            return P.reproject_image_into_polar(IM.copy(), origin=org, Jacobian=(fn == 'reprojectJ'), dr=dr, dt=dt)
+        return getattr(V, fn)(IM.copy(), origin=org, dr=dr, dt=dt)
+
+    seq = [one(_V, _P, c[0], im, c[1], c[2], c[3]) for c, im in zip(calls, ims)]
+    fails, worst = [], 0.0
+    for k, (c, im) in enumerate(zip(calls, ims)):
+        P = importlib.reload(_P)
+        V = importlib.reload(_V)
+        ref = one(V, P, c[0], im, c[1], c[2], c[3])
+        for a, b in zip(seq[k], ref):
+            a, b = np.asarray(a, dtype=float), np.asarray(b, dtype=float)
+            if a.shape != b.shape:
+                fails.append(('sequence:' + c[0], 'call %d of the sequence (%s, shape %r origin %r dr %r dt %r): result shape %r, %r when '
+                              'made first' % (k + 1, c[0], shape, c[1], c[2], c[3], a.shape, b.shape)))
+                break
+            if a.size:
+                e = float(np.abs(a - b).max() / max(float(np.abs(b).max()), 1e-300))
+                worst = max(worst, e)
+                if not e <= 1e-12:
+                    fails.append(('sequence:' + c[0], 'call %d of the sequence (%s, shape %r origin %r dr %r dt %r) differs by %.3g '
+                                  '(relative) from the same call made first in a fresh state; earlier calls: %r'
+                                  % (k + 1, c[0], shape, c[1], c[2], c[3], e, [x[:2] for x in calls[:k]])))
+                    break
+    importlib.reload(_P)
+    importlib.reload(_V)
+    return fails, {'sequence': worst / 1e-12}
+
+
 DTYPE_FUNCS = ('reproject', 'reprojectJ', 'int2D', 'int3D', 'avg2D', 'avg3D', 'angular_integration_2D',
                'angular_integration_3D', 'average_radial_intensity_2D', 'average_radial_intensity_3D',
                'radial_integration', 'circularize_const', 'circularize', 'circularize_image_argmax',
@@ -651,6 +694,23 @@ def search(ctx, rng, mult):
         c = min(float(rng.uniform(0.35, 0.6)) * rin, rin - 6.5 * s)
         S.run('circ_image', (n, ['argmax', 'lsq'][it % 2], it % 4 < 2), n=n, c=round(c, 3), s=round(s, 3),
               method=['argmax', 'lsq'][it % 2], ref=None if it % 4 < 2 else round(float(rng.uniform(-3, 3)), 3))
+    # state independence: sequences of calls on same-size images with different origins / grids / kinds
+    SEQ_FUNCS = ['int2D', 'int3D', 'avg2D', 'avg3D', 'angular_integration_2D', 'angular_integration_3D',
+                 'average_radial_intensity_2D', 'average_radial_intensity_3D', 'reproject', 'reprojectJ']
+    for it in range((10 if q else 120) * mult):
+        sh = (int(rng.integers(8, 36)), int(rng.integers(8, 36)))
+        corners = [[0.0, 0.0], [0.0, sh[1] - 1.0], [sh[0] - 1.0, 0.0], [-1.0, -1.0], [float(-sh[0]), float(-sh[1])], None,
+                   [sh[0] // 2 + 0.0, sh[1] // 2 + 0.0]]
+        calls = []
+        same_grid = bool(rng.random() < 0.6)
+        dr0, dt0 = DRS[int(rng.integers(len(DRS)))], DTS[int(rng.integers(len(DTS)))]
+        for _ in range(int(rng.integers(2, 6))):
+            org = corners[int(rng.integers(len(corners)))] if rng.random() < 0.7 else rand_origin(rng, sh)[0]
+            fn = SEQ_FUNCS[int(rng.integers(len(SEQ_FUNCS)))] if rng.random() < 0.5 else ['int3D', 'avg3D'][int(rng.integers(2))]
+            calls.append([fn, org, dr0 if same_grid else DRS[int(rng.integers(len(DRS)))],
+                          dt0 if same_grid else DTS[int(rng.integers(len(DTS)))]])
+        S.run('sequence', (len(calls), same_grid, tuple(sorted(set(c[0] for c in calls)))), shape=list(sh), calls=calls,
+              seed=int(rng.integers(1 << 30)))
     # dtype independence: every public function of the property on integer and single-precision images
     FUNCS = ORA['DTYPE_FUNCS']
     DTYPES = ['uint8', 'uint16', 'int32', 'int64', 'float32', 'float64']
